@@ -647,7 +647,7 @@ Definition next_before_type_annotations (fuel : nat) : R bool :=
     rdo '(ok, ws) <- lift t_skip_double_colon;
     if ok then
       if (tok =? tokenSymbol) && is_keyword v then rfail
-      else if tok =? tokenSymbolOperator then rfail
+      else if (tok =? tokenSymbolOperator) || (tok =? tokenDot) then rfail     (* an operator, '.' included, must be quoted *)
       else
         rdo x <- rget;
         rdo k <- (if tok =? tokenSymbolQuoted then rret (tok_text v)
